@@ -24,7 +24,9 @@ ELEM_LIKE = ["<a>", "</a>", "<a/>", "<a:t>", "</c:v>", "</p:cNvPr>", "<p:sp/>", 
 ENTITY_LIKE = ["&amp;", "&lt;", "&gt;", "&quot;", "&apos;", "&x;", "&nbsp;", "&#10;", "&#13;", "&#x26;", "&#38;",
                "&#0;", "&#x;", "&#", "&amp", "&;", "&amp;amp;", "&#60;"]
 FORMAT_LIKE = ["%", "%s", "%d", "%%", "%(x)s", "{", "}", "{}", "{0}", "{x}", "{{", "}}", "{number_format}",
-               "{nsdecls}", "%%s"]
+               "{nsdecls}", "%%s",
+               # URI escapes: stored as typed, never decoded
+               "%20", "%26", "%3C", "%25", "%2F", "%C3%A9"]
 CRS = ["\r", "\r\n", "\n\r", "\r\r"]
 WS = ["\n", "\t", " ", "  ", "\n\n", " \t", "\t\n"]
 PLAIN = list("abcxyzAZ019") + ["_", "-", ".", ";", "#", "]", "[", ":", "=", "/", "\\", "x", "x", "m"]
